@@ -46,6 +46,14 @@ CLAIMED.update({
  "C20": ("model_checking", "metamorphic observation validation judged by TLC (Obs_Case): all members of a case-flip family must give one outcome, equal to RegexSem inside the fragment; the specification's own invariance is model-checked on the same families",
          "Invariance under case changes of input and pattern letters is a relation between runs of the real engine; TLC checks it on every family, checks the exact outcome against the specification where it applies, and checks that the specification itself is invariant (M).", TB + " Only letters with a simple upper/lower fold orbit are flipped.", "6/C20"),
 })
+CLAIMED.update({
+ "C13": ("model_checking", "TLC model checking of StackPolicy.tla (the growth policy as a state machine: every tc, limit and push/pop schedule) + trace validation of the growth steps recorded by a hook against that model + black-box sweep of limits judged by TLC (Obs_Stack)",
+         "The design-level question (can a push overflow? can capacity exceed the limit?) is decided exhaustively on the model - which is how the original panic was found - and every recorded run must be a behaviour of the model; the property's own clauses (no panic, unlimited result or limit error, capacity <= L, monotone in L, reusable) are checked on every run of a limit sweep.",
+         "Trusted: TLC, Json/IOUtils; the interpreter's contract that a forward run between two storage checks pushes at most 4*TrackCount slots is an assumption of the model (Push(a), a <= 4*tc).", "6/C13"),
+ "C14": ("model_checking", "TLC model checking of Clock.tla (explicit state machine of makeDeadline/extendClock/runClock/stopClock with real time) + real-time replay of model-derived histories, including TLC counter-example interleavings forced through gate hooks + trace validation of hook-recorded clock events (Obs_Clock)",
+         "All interleavings of two callers, the clock goroutine and the stopper are explored on the model (NoEarlyTimeout, AtMostOneClock, LiveDeadlineHasClock, clock exit); the histories the property names are then run against the real code in real time with one-sided hard bounds, and the event order observed under the mutex must be a behaviour of the model.",
+         "Trusted: TLC; the urgency assumptions of the model (goroutines scheduled within a tick); wall-clock bounds: hard lower bound d/2, soft upper bound retried.", "6/C14"),
+})
 NOT_YET = "check not built yet in this round (planned, see DESIGN.md section 6)"
 
 hooks_commits = []
@@ -77,6 +85,8 @@ m = {
   {"name": "Groups", "path": "spec/Groups.tla", "serves_properties": ["C17"], "kind_free_text": "group numbering function; Gen_Groups.tla enumerates its domain"},
   {"name": "Escape", "path": "spec/Escape.tla", "serves_properties": ["C19"], "kind_free_text": "meaning of escaped text; Obs_Escape.tla"},
   {"name": "Obs_Case", "path": "spec/Obs_Case.tla", "serves_properties": ["C20"], "kind_free_text": "metamorphic case-flip families"},
+  {"name": "StackPolicy", "path": "spec/StackPolicy.tla", "serves_properties": ["C13"], "kind_free_text": "state machine of the backtracking-stack growth policy, model checked; Obs_Stack.tla validates recorded growth traces and limit sweeps"},
+  {"name": "Clock", "path": "spec/Clock.tla", "serves_properties": ["C14"], "kind_free_text": "state machine of the timeout clock with real time, model checked (MC_Clock.tla, Clock_*.cfg); Obs_Clock.tla validates recorded clock events"},
   {"name": "Obs_Find", "path": "spec/Obs_Find.tla", "serves_properties": ["C01", "C15"], "kind_free_text": "trace/observation validation spec: recorded find results must be behaviours of RegexSem"},
  ],
  "checks": [],
